@@ -861,6 +861,14 @@ func run(ctx *Ctx) *Result {
 			res.Disagree(stream+": Myers script passed to the model is not a valid script", c, "", "valid="+f["valid"])
 			return splitScript(out), out, "disagree"
 		}
+		res.Count(stream + ":class-ISO(isoCheck):" + f["iso"])
+		if f["iso"] == "1" && strings.TrimSpace(out) != "" {
+			// asa_F1_iso_quiet: the class is static, so this is a claim about the REAL code too
+			res.Disagree(stream+": isoCheck holds but drc prints changes (contradicts asa_F1_iso_quiet)", c, "", out)
+		}
+		if f["iso"] != "1" && strings.TrimSpace(out) == "" {
+			res.Count(stream + ":empty-script-outside-ISO:" + f["iso"])
+		}
 		real := strings.Join(strings.Split(strings.TrimSuffix(out, "\n"), "\n"), "|")
 		if real != f["script"] {
 			res.Disagree(stream+": change script (drc vs model)", c, real, f["script"])
@@ -873,6 +881,10 @@ func run(ctx *Ctx) *Result {
 			if !strings.HasPrefix(f["exec"], "ok") {
 				res.Disagree(stream+": k1Check holds but the Lean device rejects the model script (contradicts asa_F1_converges_partial)", c, "", f["exec"])
 			}
+		}
+		res.Count(stream + ":class-K2(k2Check):" + f["k2"])
+		if f["k2"] == "1" && !strings.HasPrefix(f["exec"], "ok") {
+			res.Disagree(stream+": k2Check holds but the Lean device rejects the model script (contradicts asa_F1_converges)", c, "", f["exec"])
 		}
 		if f["hits"] != "" {
 			for _, h := range strings.Split(f["hits"], ",") {
@@ -910,6 +922,24 @@ func run(ctx *Ctx) *Result {
 			var k int
 			fmt.Sscanf(execGo, "rejected@%d", &k)
 			execGo = fmt.Sprintf("rejected@%d", goAt[k])
+		}
+		if f["k2"] == "1" {
+			// asa_F1_converges (and, on an empty script, asa_F1_unchanged_only_if_equivalent; on a cut state,
+			// asa_F1_resume_partial): the REAL script is accepted by dev.go and ends in the target's view
+			if execGo != "ok" {
+				res.Disagree(stream+": k2Check holds but dev.go rejects the real script (contradicts asa_F1_converges)", c, "ok", execGo)
+			} else {
+				want := b.clone()
+				want.Intfs = a.Intfs
+				var bk []string
+				bk = append(bk, b.BOrder...)
+				if got, w := ex.d.leanView(bk, len(b.Routes) > 0), want.leanView(bk, len(b.Routes) > 0); got != w {
+					res.Disagree(stream+": k2Check holds but the executed result differs from the target (contradicts asa_F1_converges)", c, w, got)
+				}
+				if len(cmds) == 0 {
+					res.Count(stream + ":K2-and-empty-script(asa_F1_unchanged_only_if_equivalent)")
+				}
+			}
 		}
 		if execGo != execLean {
 			res.Disagree(stream+": strict executor verdict (dev.go vs Lean port)", c, execGo, f["exec"])
